@@ -66,7 +66,9 @@ def runAct (a : TAct) (m : M) : M :=
     match m.top? with
     | some f => m.setTop { f with vars := varsTouch f.vars n }
     | none => m
-  | .suspend ms => { m with ctx := { m.ctx with suspended := true, wakeup := m.now + ms } }
+  | .suspend ms =>
+    let (t, m1) := m.readClock
+    { m1 with ctx := { m1.ctx with suspended := true, wakeup := t + ms } }
 
 def runActs : List TAct → M → M
   | [], m => m
@@ -113,7 +115,12 @@ def behDecide (b : Beh) (res : Option Val) (m : M) : List TAct × Beh × BRes ×
     if !inCode then
       match res with
       | some (.bool true) =>
-        if code.isEmpty then ([.clearV, .setVars []], b, .seekStart, false)
+        if code.isEmpty then
+          -- nothing to exchange to: the iteration still counts towards the cap
+          let loops' := if !m.ctx.canSuspend then loops + 1 else loops
+          if !m.ctx.canSuspend && m.maxLoops > 0 && loops' ≥ m.maxLoops then
+            ([.clearV, .setVars []], .whileB false loops' cond code, .ok, false)
+          else ([.clearV, .setVars []], .whileB false loops' cond code, .seekStart, false)
         else ([.clearV, .setVars []], .whileB true loops cond code, .exchange code, false)
       | some (.bool false) => ([], b, .ok, false)
       | some v => ([mismatchAct v], b, .ok, false)
@@ -212,6 +219,8 @@ def enact (b : Beh) (m : M) : M × Beh × BRes × Bool :=
 /-- result of `frame::next(runtime)` -/
 inductive NextRes where
   | ok | done | hang | crash
+  /-- a behaviour restarted a frame that has nothing to execute -/
+  | yield
 
 /-- `frame::next()`: advance the position; `done` when it reaches (or already is at) the end -/
 def advance (f : Frame) : Frame × NextRes :=
@@ -245,7 +254,11 @@ def frameNext : Nat → M → M × NextRes
         | some b =>
           match settle a.2 (enact b m1) with
           | (m3, some r) => (m3, r)
-          | (m3, none) => frameNext fuel m3
+          | (m3, none) =>
+            -- restarted: if the frame has nothing to execute control goes back to `execute_do`
+            match m3.top? with
+            | some f3 => if f3.code.isEmpty then (m3, .yield) else frameNext fuel m3
+            | none => frameNext fuel m3
       else (m1, a.2)
 
 /-! ### instructions -/
@@ -367,6 +380,21 @@ def afterInstr (m2 : M) : M × StepRes :=
     let m4 := (({ m2 with msgs := [] } : M).alloc (m2.msgs.map (fun _ => Val.other n!"msg"))).1
     finishErr m4 (unwindErr (m2.ctx.frames.length + 1) m2.ctx (.strace (.ref m2.heap.length)))
 
+/-- deadline test of `execute_do` (one clock read when a limit is configured): `none` = go on -/
+def deadline (m1 : M) : Option (M × StepRes) × M :=
+  if m1.maxRuntime != 0 then
+    if m1.runStart + m1.maxRuntime < m1.readClock.1 then
+      -- reported, flag lowered, exit requested; the run did not succeed
+      (some ({ (m1.readClock.2.log Diag.runtime_MaximumRuntimeReached) with exitReq := true, err := false }, .runtimeError), m1.readClock.2)
+    else (none, m1.readClock.2)
+  else (none, m1)
+
+/-- a restart of a frame without instructions counts like an instruction (slice budget, time limit) -/
+def yieldStep (m1 : M) : M × StepRes :=
+  match deadline m1 with
+  | (some r, _) => r
+  | (none, m2) => (m2, .ok)
+
 /-- fetch and execute the instruction the current frame points at -/
 def fetchExec (m1 : M) : M × StepRes :=
   match m1.top? with
@@ -374,7 +402,10 @@ def fetchExec (m1 : M) : M × StepRes :=
   | some f =>
     match f.code[f.pc - 1]? with
     | none => (m1, .ok)
-    | some i => afterInstr (execInstr i m1)
+    | some i =>
+      match deadline m1 with
+      | (some r, _) => r
+      | (none, m2) => afterInstr (execInstr i m2)
 
 /-- `execute_do(runtime, 1)`: any number of frame completions, then one instruction (or `empty`). -/
 def step : Nat → M → M × StepRes
@@ -387,6 +418,12 @@ def step : Nat → M → M × StepRes
       match frameNext (fuel + 1) m with
       | (m1, .hang) => (m1, .hang)
       | (m1, .crash) => (m1, .crash)
+      | (m1, .yield) =>
+        if m1.err then
+          match afterInstr m1 with
+          | (m2, .ok) => step fuel m2
+          | (m2, r2) => (m2, r2)
+        else yieldStep m1
       | (m1, r) =>
         if m1.err then
           -- an exit behaviour raised an error: handled right away, like an error of an instruction
